@@ -273,7 +273,7 @@ class Monitor:
     def classify(self, side, flow, n, dg, why, where):
         """a read that is not the next n bytes of the connection's stream"""
         for what, s, f in self.stale_flows(side):
-            hints = [f.delivered, 0] + [f.delivered - n]
+            hints = [f.delivered, 0, f.delivered - n] + (list(range(n, len(f.content) - n + 1, n)) if n > 0 else [])
             o = self.find_in(f.content, n, dg, hints)
             if o is not None:
                 self.fail("reuse", "%s: %s on connection %s returned n=%d bytes that are bytes [%d,%d) %s on the earlier connection %s of socket object %s (%s)"
